@@ -55,6 +55,7 @@ def run(prog, chk):
     reencode_table(prog, chk)
     element_bookkeeping_table(prog, chk)
     refused_mutation(prog, chk)
+    append_to_raw_table(prog, chk)
     _run(prog, chk)
 
 
@@ -723,3 +724,65 @@ def element_bookkeeping_table(prog, chk):
         got = I.read(q, "P->ftlv.dat_len")
         chk.ob("C09.elembook", inst, q.ret == 0 and got == want, "parent's recorded payload length 7, child 2 + 3 octets: expected %d afterwards, source gives %s (status %s)" % (want, got, q.ret),
                loc=fn.loc(), fn=fn)
+
+
+def append_to_raw_table(prog, chk):
+    """KSI_TLV_appendNestedTlv on a TLV in each of its forms.  A TLV holds its payload either as octets (datap, datap_len) or as a list
+    of elements (nested); the serializer writes the list whenever there is one.  Giving a TLV that holds N > 0 octets a list is only
+    sound when the list starts with the elements read from those octets: evaluated with the file-local helpers inlined and the raw
+    reader standing for 'one element read from the payload', the list the new element is appended to must hold the elements of the
+    payload (or the call must fail); with no payload, or with a list already there, the element is simply appended."""
+    from ksirules.interp import TOP, Interp, Ptr, inline_model, succeed_model
+    chk.rule("C09.appendform", "appending an element to a TLV that still holds its payload as octets keeps the elements encoded there "
+                               "(the payload is expanded first or the call refused)", floor=4)
+    fn = prog.fn("KSI_TLV_appendNestedTlv", "tlv.c")
+    tp, cp = [p["n"] for p in fn.params]
+    helpers = {f.name for f in prog.all_functions() if f.unit == "tlv.c" and f.static} - {"readFirstTlv"}
+    for form, nested, dlen in (("empty, no list", 0, 0), ("payload of 4 octets (two elements of 2), no list", 0, 4), ("list with one element", Ptr("HAS"), 0),
+                               ("payload of 2 octets (one element), no list", 0, 2)):
+        made, lists, reads = [], {"HAS": [Ptr("OLD")]}, []
+
+        def list_new(I, p, node, args):
+            a0 = strip(node["a"][0])
+            key = I.canon(p, lvalue_key(a0["e"], I.fn)) if isinstance(a0, dict) and a0.get("k") == "un" else None
+            if key is None:
+                return TOP
+            nm = "L%d" % len(made)
+            made.append(nm)
+            lists[nm] = []
+            I.write(p, key, Ptr(nm))
+            return 0
+
+        def append(I, p, node, args):
+            if not isinstance(args[0], Ptr) or args[0].what not in lists:
+                return TOP
+            lists[args[0].what].append(args[1])
+            return 0
+
+        def read_first(I, p, node, args):
+            # one element of 2 octets is read from the position given
+            a3 = strip(node["a"][3])
+            key = I.canon(p, lvalue_key(a3["e"], I.fn)) if isinstance(a3, dict) and a3.get("k") == "un" else None
+            if key is None:
+                return TOP
+            el = Ptr("FROM_PAYLOAD%d" % len(reads))
+            reads.append(el)
+            I.write(p, key, el)
+            I.write(p, el.what + "->absoluteOffset", 0)
+            return 2
+        ov = {"KSI_TLVList_new": list_new, "KSI_TLVList_append": append, "readFirstTlv": read_first, "KSI_TLVList_free": lambda I, p, n, a: TOP,
+              "KSI_TLV_free": lambda I, p, n, a: TOP, "KSI_free": lambda I, p, n, a: TOP, "KSI_ERR_clearErrors": lambda I, p, n, a: TOP}
+        inputs = {tp: Ptr("T"), cp: Ptr("NEW"), "T->ctx": Ptr("ctx"), "T->nested": nested, "T->datap_len": dlen, "T->datap": Ptr("DAT") if dlen else 0}
+        I = Interp(fn, inputs=inputs, call_model=inline_model(prog, helpers, fallback=succeed_model(prog, ov)), on_unknown="stop", prog=prog, loop_bound=6)
+        paths = I.run()
+        chk.paths += len(paths)
+        inst = "appendNestedTlv[%s]" % form
+        if len(paths) != 1 or paths[0].undetermined:
+            raise AnalysisBroken("%s: evaluation not determined: %s" % (inst, [q.undetermined[:1] for q in paths]))
+        q = paths[0]
+        lst = I.read(q, "T->nested")
+        got = lists.get(lst.what) if isinstance(lst, Ptr) else None
+        want = ([Ptr("OLD")] if nested else [Ptr("FROM_PAYLOAD%d" % k) for k in range(dlen // 2)]) + [Ptr("NEW")]
+        ok = (q.ret == 0 and got == want) or (isinstance(q.ret, int) and q.ret != 0 and dlen > 0)
+        chk.ob("C09.appendform", inst, ok, "expected the TLV's elements to be %s (or, with a payload, an error); source: status %s, elements %s" % (want, q.ret, got),
+               loc=fn.loc(), fn=fn, nontrivial=dlen > 0)
